@@ -746,7 +746,7 @@ def _arr_sum(eng, recv, a, kw, st, fr, k, node):
     f = psum_fn(arr)
     j = eng.S._fresh("ps")
     sel = z3.Select(arr, j)
-    ax = z3.ForAll([j], f(j + 1) == f(j) + (z3.ToReal(sel) if z3.is_int(sel) else sel), patterns=[f(j + 1)])
+    ax = z3.ForAll([j], f(j + 1) == f(j) + (z3.ToReal(sel) if z3.is_int(sel) else sel), patterns=[f(j + 1), sel])
     eng.assumptions.add("A3 floating point sums are modelled over the reals (ghost prefix sums)")
     return k(f(recv.lo + recv.n) - f(recv.lo), st.assume(ax))
 
